@@ -167,19 +167,43 @@ fn through_validator(wt: Wt, w: &[u8; 10], mode: Mode) -> Result<Option<String>,
 }
 
 fn data_word_case(id: u8, active: u32, mode: Mode) -> Result<Option<String>, String> {
+    data_word_case_h(id, active, mode, 0)
+}
+
+/// `history`: 0 = the packet under test is the first of the link; 1 = a complete packet whose IHW announced the
+/// complementary lane mask comes first (the mask of the packet's own IHW governs its data words); 2 = as 1, and the
+/// IHW of the packet under test also has a reserved bit set (it is reported, and still is this packet's IHW).
+fn data_word_case_h(id: u8, active: u32, mode: Mode, history: u8) -> Result<Option<String>, String> {
     let cfg = val::mode_cfg(mode);
     let mut st = val::CdpStepper::new(cfg);
-    let r = Rdh::base();
-    st.set_rdh(&r.encode(), 0)?;
+    let mut r = Rdh::base();
+    let mut base = 0u64;
+    if history > 0 {
+        st.set_rdh(&r.encode(), 0)?;
+        let other = !active & 0x0FFF_FFFF;
+        for w in [
+            words::ihw(other),
+            words::Tdh { trigger_type: (r.trigger_type & 0xFFF) as u16, internal: true, no_data: true, continuation: false, bc: 0, orbit: r.orbit }.encode(),
+        ] {
+            let _ = st.word(&w)?;
+        }
+        r.pages_counter = 1;
+        base = 0x1000;
+    }
+    st.set_rdh(&r.encode(), base)?;
+    let mut ihw = words::ihw(active);
+    if history == 2 {
+        ihw[3] |= 0x10; // reserved bit 28
+    }
     let lead = [
-        words::ihw(active),
-        words::Tdh { trigger_type: (r.trigger_type & 0xFFF) as u16, internal: true, no_data: false, continuation: false, bc: 0, orbit: r.orbit }.encode(),
+        ihw,
+        words::Tdh { trigger_type: (r.trigger_type & 0xFFF) as u16, internal: true, no_data: false, continuation: false, bc: if history > 0 { 0x40 } else { 0 }, orbit: r.orbit }.encode(),
         words::data_word(0x20, [0; 9]), // a first data word so that a following 0xF8 counts as data, not as a CDW
     ];
     for (i, l) in lead.iter().enumerate() {
         let m = val::error_texts(&st.word(l)?);
         // the lead-in data word may itself be inactive under this mask; it is not the word under test
-        if i < 2 && !m.is_empty() {
+        if i < 2 && !m.is_empty() && history == 0 {
             return Err(format!("lead-in produced {:?}", m));
         }
     }
@@ -187,7 +211,7 @@ fn data_word_case(id: u8, active: u32, mode: Mode) -> Result<Option<String>, Str
     let msgs = val::error_texts(&st.word(&w)?);
     let verdict = rules::data_word_verdict(id, active);
     let want_reported = if mode.running() { verdict.reported() } else { verdict.bad_id };
-    let want_off = 64 + 30;
+    let want_off = base + 64 + 30;
     for m in &msgs {
         match rules::parse_error_message(m) {
             Some((off, _)) if off == want_off => {}
@@ -348,6 +372,28 @@ pub fn run(tier: Tier) -> i32 {
             }
         }
     }
+    // with a history: an earlier packet announced the complementary mask; the packet's own IHW sane / with a reserved bit
+    let mut hcases = Vec::new();
+    for history in [1u8, 2] {
+        for &id in &ids {
+            for &m in &masks {
+                hcases.push((id, m, history));
+            }
+        }
+    }
+    let hres = par_map(&hcases, |_, (id, m, h)| data_word_case_h(*id, *m, Mode::AllIts, *h));
+    for ((id, m, h), r) in hcases.iter().zip(hres.iter()) {
+        evaluations += 1;
+        match r {
+            Ok(None) => {}
+            Ok(Some(d)) => rep.violation(Violation {
+                signature: format!("data-word:lanes-of-an-earlier-ihw:{}", if *h == 2 { "own-ihw-with-reserved-bit" } else { "own-ihw-sane" }),
+                description: format!("{d} [an earlier packet's IHW announced the complementary mask]"),
+                replay: json!({"kind": "data-history", "id": id, "active": m, "history": h}),
+            }),
+            Err(p) => rep.violation(Violation { signature: format!("panic:{}", val::panic_site(p)), description: p.clone(), replay: json!({"kind": "data-history", "id": id, "active": m, "history": h}) }),
+        }
+    }
     let dres = par_map(&dcases, |_, (id, m, mode)| data_word_case(*id, *m, *mode));
     let mut reported_data = 0u64;
     for ((id, m, mode), r) in dcases.iter().zip(dres.iter()) {
@@ -402,6 +448,7 @@ pub fn replay(v: &serde_json::Value) -> i32 {
             a.copy_from_slice(&w);
             through_validator(wt(r["type"].as_str().unwrap()), &a, mode(r["mode"].as_str().unwrap())).unwrap_or_else(|p| Some(p))
         }
+        "data-history" => data_word_case_h(r["id"].as_u64().unwrap() as u8, r["active"].as_u64().unwrap() as u32, Mode::AllIts, r["history"].as_u64().unwrap_or(1) as u8).unwrap_or_else(|p| Some(p)),
         _ => data_word_case(r["id"].as_u64().unwrap() as u8, r["active"].as_u64().unwrap() as u32, mode(r["mode"].as_str().unwrap())).unwrap_or_else(|p| Some(p)),
     };
     match res {
